@@ -978,8 +978,20 @@ func (m *lfsModule) handleHTTPUploadComplete(w http.ResponseWriter, r *http.Requ
 		return
 	}
 
+	// The envelope's size and hashes describe every uploaded part, so the
+	// object must be assembled from exactly those parts: 1..N, each once, in
+	// order. A shorter, reordered or repeated list would make S3 build a
+	// different object than the one the envelope describes.
+	if len(req.Parts) != len(session.Parts) {
+		m.lfsWriteHTTPError(w, requestID, session.Topic, http.StatusBadRequest, "invalid_part", "parts list must name every uploaded part exactly once")
+		return
+	}
 	completed := make([]types.CompletedPart, 0, len(req.Parts))
-	for _, part := range req.Parts {
+	for i, part := range req.Parts {
+		if part.PartNumber != int32(i+1) {
+			m.lfsWriteHTTPError(w, requestID, session.Topic, http.StatusBadRequest, "invalid_part", "parts must be listed in ascending order without gaps")
+			return
+		}
 		etag, ok := session.Parts[part.PartNumber]
 		if !ok || etag == "" || part.ETag == "" || etag != part.ETag {
 			m.lfsWriteHTTPError(w, requestID, session.Topic, http.StatusBadRequest, "invalid_part", "part etag mismatch")
